@@ -13,11 +13,11 @@ Inductive sexp := Atom (a : bytes) | SList (l : list sexp).
 Inductive stok := SLP | SRP | SAtom (a : bytes).
 
 Definition push_atom (cur : bytes) (acc : list stok) : list stok :=
-  match cur with [] => acc | _ => SAtom (rev cur) :: acc end.
+  match cur with [] => acc | _ => SAtom (rev_append cur []) :: acc end.
 
 Fixpoint stokenize_acc (s : bytes) (cur : bytes) (acc : list stok) : list stok :=
   match s with
-  | [] => rev (push_atom cur acc)
+  | [] => rev_append (push_atom cur acc) []
   | c :: r =>
       if c =? 40 then stokenize_acc r [] (SLP :: push_atom cur acc)
       else if c =? 41 then stokenize_acc r [] (SRP :: push_atom cur acc)
@@ -30,10 +30,10 @@ Definition stokenize (s : bytes) (cur : bytes) : list stok := stokenize_acc s cu
 (* stack-based reader: no fuel needed *)
 Fixpoint sparse (ts : list stok) (stack : list (list sexp)) (cur : list sexp) : option (list sexp) :=
   match ts with
-  | [] => match stack with [] => Some (rev cur) | _ => None end
+  | [] => match stack with [] => Some (rev_append cur []) | _ => None end
   | SLP :: r => sparse r (cur :: stack) []
   | SRP :: r => match stack with
-                | up :: st => sparse r st (SList (rev cur) :: up)
+                | up :: st => sparse r st (SList (rev_append cur []) :: up)
                 | [] => None
                 end
   | SAtom a :: r => sparse r stack (Atom a :: cur)
